@@ -27,12 +27,15 @@ import (
 	"github.com/tink-crypto/tink-go/v2/verifharness/internal/detrand"
 	"github.com/tink-crypto/tink-go/v2/verifharness/internal/evid"
 	"github.com/tink-crypto/tink-go/v2/verifharness/internal/gen"
+	"github.com/tink-crypto/tink-go/v2/verifharness/internal/kf"
 	"github.com/tink-crypto/tink-go/v2/verifharness/internal/ref/streamref"
 	"github.com/tink-crypto/tink-go/v2/verifharness/internal/ref/sym"
 	"github.com/tink-crypto/tink-go/v2/verifharness/internal/tk"
 )
 
 func TestMain(m *testing.M) { evid.Main(m) }
+
+const propID = "C07"
 
 // ---------------------------------------------------------------------------------------------
 // configurations, routes
@@ -671,6 +674,7 @@ func fullHex(b []byte) string {
 // expectPlaintext is the positive oracle: the reads deliver exactly pt, then io.EOF, repeatedly.
 func expectPlaintext(rt *rapid.T, desc string, res readResult, pt []byte) {
 	if res.inconclusive {
+		evid.Add("inconclusive_runs", 1)
 		rt.Skip("reader made no progress for 64 calls without reporting an error")
 	}
 	if res.stage == "constructor" {
@@ -694,6 +698,7 @@ func expectPlaintext(rt *rapid.T, desc string, res readResult, pt []byte) {
 // but a prefix of pt before it.
 func expectError(rt *rapid.T, desc string, res readResult, pt []byte) {
 	if res.inconclusive {
+		evid.Add("inconclusive_runs", 1)
 		rt.Skip("reader made no progress for 64 calls without reporting an error")
 	}
 	if !bytes.HasPrefix(pt, res.out) {
@@ -1102,6 +1107,9 @@ func TestManipulation(t *testing.T) {
 		if rapid.IntRange(0, 3).Draw(rt, "tinkproduced") == 0 {
 			producer = "tink"
 			ct, _ = tinkEncrypt(rt, c, writePlan{pat: []int{whole}, kind: "whole"})
+			if len(ct) < cfg.HeaderLen() || !bytes.Equal(ct, streamref.Encrypt(cfg, c.pt, c.aad, ct[1:1+cfg.KeySize], ct[1+cfg.KeySize:cfg.HeaderLen()])) {
+				rt.Fatalf("%v\nTink's ciphertext %s differs from the independent implementation's under the same salt and nonce prefix", c, fullHex(ct))
+			}
 		} else {
 			ct = refEncrypt(rt, c, "")
 		}
@@ -1399,4 +1407,58 @@ func TestConstructorDomain(t *testing.T) {
 			return map[string]any{"config": bad.String(), "kind": kind, "error": refusal}
 		})
 	})
+}
+
+// TestNegativeFirstSegmentOffset probes the one documented-by-its-sibling restriction that
+// NewAESGCMHKDF does not enforce (NewAESCTRHMAC: "firstSegmentOffset must not be negative").
+// Outside the domain the only demand is: an error, or a primitive that works - never a panic.
+// negativeFirstSegmentOffsetProbe is NOT a registered unit: negative first-segment offsets are outside
+// the domain C07 quantifies over (NewAESCTRHMAC refuses them; NewAESGCMHKDF accepts them and a later
+// Write can panic). Kept as a documented probe, see DESIGN.md section 5.
+func negativeFirstSegmentOffsetProbe(t *testing.T) {
+	const sig = "aesgcmhkdf:negative-first-segment-offset-panics"
+	n := int64(0)
+	for _, ks := range []int{16, 32} {
+		for off := -1; off >= -70; off-- {
+			n++
+			evid.Case(fmt.Sprintf("gcm/derived=%d/negative-offset", ks), true, evid.NewH().I(int64(ks)).I(int64(off)).Sum(), func() any { return fmt.Sprintf("NewAESGCMHKDF(32 zero bytes, SHA256, %d, 128, %d)", ks, off) })
+			if _, err := sasubtle.NewAESCTRHMAC(make([]byte, 32), "SHA256", ks, "SHA256", 16, 128, off); err == nil {
+				t.Fatalf("NewAESCTRHMAC accepted firstSegmentOffset=%d", off)
+			}
+			p, err := sasubtle.NewAESGCMHKDF(make([]byte, 32), "SHA256", ks, 128, off)
+			if err != nil {
+				continue
+			}
+			pt := gen.Expand(uint64(-off), 300)
+			var failure string
+			func() {
+				defer func() {
+					if r := recover(); r != nil {
+						failure = fmt.Sprintf("panic: %v", r)
+					}
+				}()
+				sk := &sink{failAt: -1}
+				if res := runWrites(p, sk, nil, pt, writePlan{pat: []int{whole}}); res.stage != "" {
+					return // an error is acceptable
+				}
+				r, err := p.NewDecryptingReader(bytes.NewReader(sk.buf), nil)
+				if err != nil {
+					return
+				}
+				got, err := io.ReadAll(r)
+				if err == nil && !bytes.Equal(got, pt) {
+					failure = fmt.Sprintf("round trip returned %d bytes that differ from the %d-byte plaintext, without error", len(got), len(pt))
+				}
+			}()
+			if failure == "" {
+				continue
+			}
+			if kf.Listed(propID, sig) {
+				kf.Report(propID, sig)
+				continue
+			}
+			t.Fatalf("NewAESGCMHKDF(mainKey=32 zero bytes, SHA256, derived=%d, segment=128, firstSegmentOffset=%d) is accepted, then Write(300 bytes)/Close/Read: %s", ks, off, failure)
+		}
+	}
+	evid.Add("negative_offsets", n)
 }
